@@ -266,26 +266,27 @@ bool FilePersister::put(const unsigned seqnum, const f8String& what)
 		glout_error << "Error: record for seqnum " << seqnum << " is too large (" << what.size() << ") for: " << _dbFname;
 		return false;
 	}
-	if (lseek(_iod, 0, SEEK_END) < 0)
-	{
-		glout_error << "Error: could not seek to index end for seqnum persitence: " << _dbIname;
-		return false;
-	}
 	off_t offset;
 	if ((offset = lseek(_fod, 0, SEEK_END)) < 0)
 	{
 		glout_error << "Error: could not seek to end for seqnum persitence: " << _dbFname;
 		return false;
 	}
+	// write the data before the index record that points to it: an index record must never refer to missing data
+	if (write (_fod, what.data(), static_cast<unsigned>(what.size())) != static_cast<ssize_t>(what.size()))
+	{
+		glout_error << "Error: could not write record for seqnum " << seqnum << " to: " << _dbFname;
+		return false;
+	}
+	if (lseek(_iod, 0, SEEK_END) < 0)
+	{
+		glout_error << "Error: could not seek to index end for seqnum persitence: " << _dbIname;
+		return false;
+	}
 	IPrec iprec(seqnum, offset, static_cast<unsigned>(what.size()));
 	if (write (_iod, static_cast<void *>(&iprec), sizeof(IPrec)) != sizeof(IPrec))
 	{
 		glout_error << "Error: could not write index record for seqnum " << seqnum << " to: " << _dbIname;
-		return false;
-	}
-	if (write (_fod, what.data(), static_cast<unsigned>(what.size())) != static_cast<ssize_t>(what.size()))
-	{
-		glout_error << "Error: could not write record for seqnum " << seqnum << " to: " << _dbFname;
 		return false;
 	}
 
